@@ -1,66 +1,67 @@
 import CattrsModel.Lemmas.GenInterpMain
 import CattrsModel.Lemmas.RoundTripBase
 /-!
-# C06: the value-level hypothesis `Obj.scalarKeys` follows from a type-level one
+# C06: the value-level hypothesis `scalarKeys` follows from a type-level one
 
 For types without `Any` positions whose set-element and mapping-key types are hashable primitives
 (`Ty.hashPrim`, the hypothesis of the C01 round trip), every well-typed value has scalar set elements and dict keys.
 -/
-namespace CattrsModel
+namespace CattrsModel.GenInterp
+open CattrsModel
 variable (w : World)
 
 mutual
 /-- no `Any` position; set-element and mapping-key types are hashable primitives -/
-def Ty.keysHP : Ty → Bool
+def keysHP : Ty → Bool
   | .any => false
-  | .coll k t => (!k.structTo.isSet || t.hashPrim) && t.keysHP
-  | .tupleHet ts => Ty.keysHPL ts
-  | .map _ kt vt => kt.hashPrim && vt.keysHP
-  | .opt t => t.keysHP
-  | .wrap _ t => t.keysHP
+  | .coll k t => (!k.structTo.isSet || t.hashPrim) && (keysHP t)
+  | .tupleHet ts => keysHPL ts
+  | .map _ kt vt => kt.hashPrim && (keysHP vt)
+  | .opt t => (keysHP t)
+  | .wrap _ t => (keysHP t)
   | _ => true
 termination_by structural t => t
-def Ty.keysHPL : List Ty → Bool
+def keysHPL : List Ty → Bool
   | [] => true
-  | t :: ts => t.keysHP && Ty.keysHPL ts
+  | t :: ts => (keysHP t) && keysHPL ts
 termination_by structural ts => ts
 end
 
 /-- every field of every class is annotated with such a type -/
-def World.KeysHP (w : World) : Prop := ∀ c, ∀ f ∈ w.fields c, ∃ t, f.ty = some t ∧ t.keysHP = true
+def KeysHP (w : World) : Prop := ∀ c, ∀ f ∈ w.fields c, ∃ t, f.ty = some t ∧ (keysHP t) = true
 
-theorem keysHPL_mem : ∀ {ts : List Ty}, Ty.keysHPL ts = true → ∀ t ∈ ts, t.keysHP = true := by
+theorem keysHPL_mem : ∀ {ts : List Ty}, keysHPL ts = true → ∀ t ∈ ts, (keysHP t) = true := by
   intro ts
   induction ts with
   | nil => intro _ t ht; cases ht
   | cons a ts ih =>
     intro h t ht
-    simp only [Ty.keysHPL, Bool.and_eq_true] at h
+    simp only [keysHPL, Bool.and_eq_true] at h
     rcases List.mem_cons.mp ht with e | e
     · subst e; exact h.1
     · exact ih h.2 t e
 
-theorem leaf_scalarKeys {x : Obj} (h : x.isLeafB = true) : x.scalarKeys = true := by
-  cases x <;> simp_all [Obj.isLeafB, Obj.scalarKeys]
+theorem leaf_scalarKeys {x : Obj} (h : x.isLeafB = true) : (scalarKeys x) = true := by
+  cases x <;> simp_all [Obj.isLeafB, scalarKeys]
 
-theorem scalar_scalarKeys {x : Obj} (h : x.isScalar = true) : x.scalarKeys = true := by
-  cases x <;> simp_all [Obj.isScalar, Obj.scalarKeys]
+theorem scalar_scalarKeys {x : Obj} (h : (isScalar x) = true) : (scalarKeys x) = true := by
+  cases x <;> simp_all [isScalar, scalarKeys]
 
 /-- values of hashable-primitive types are scalars -/
 theorem hashPrim_scalar : ∀ (m : Nat) (t : Ty) (x : Obj), sizeOf t ≤ m → t.hashPrim = true → t.supU false = true →
-    wellTyped w t x = true → x.isScalar = true := by
+    wellTyped w t x = true → (isScalar x) = true := by
   intro m
   induction m with
   | zero => intro t x ht; have := sizeOf_ty_pos t; omega
   | succ m ihm =>
     intro t x ht hp hs hwt
     cases t with
-    | int => cases x <;> simp_all [wellTyped, Obj.isScalar]
-    | float => cases x <;> simp_all [wellTyped, Obj.isScalar]
-    | str => cases x <;> simp_all [wellTyped, Obj.isScalar]
-    | bytes => cases x <;> simp_all [wellTyped, Obj.isScalar]
-    | bool => cases x <;> simp_all [wellTyped, Obj.isScalar]
-    | enum e => cases x <;> simp_all [wellTyped, Obj.isScalar]
+    | int => cases x <;> simp_all [wellTyped, isScalar]
+    | float => cases x <;> simp_all [wellTyped, isScalar]
+    | str => cases x <;> simp_all [wellTyped, isScalar]
+    | bytes => cases x <;> simp_all [wellTyped, isScalar]
+    | bool => cases x <;> simp_all [wellTyped, isScalar]
+    | enum e => cases x <;> simp_all [wellTyped, isScalar]
     | lit vs =>
       exact leaf_scalar (memPy_leaf (by simpa [Ty.supU] using hs) (by simpa [wellTyped] using hwt))
     | opt t' =>
@@ -76,12 +77,12 @@ theorem hashPrim_scalar : ∀ (m : Nat) (t : Ty) (x : Obj), sizeOf t ≤ m → t
       exact ihm t' x hsz (by simpa [Ty.hashPrim] using hp) hs.1 hwt
     | _ => simp [Ty.hashPrim] at hp
 
-theorem allScalar_of (xs : List Obj) (h : ∀ x ∈ xs, x.isScalar = true) : allScalar xs = true := by
+theorem allScalar_of (xs : List Obj) (h : ∀ x ∈ xs, (isScalar x) = true) : allScalar xs = true := by
   simp only [allScalar, List.all_eq_true]; exact h
 
-theorem scalarKeys_of_typed_aux (hws : w.SupU false) (hk : w.KeysHP) :
-    ∀ (n m : Nat) (t : Ty) (x : Obj), sizeOf x ≤ n → sizeOf t ≤ m → t.keysHP = true → t.supU false = true →
-      wellTyped w t x = true → x.scalarKeys = true := by
+theorem scalarKeys_of_typed_aux (hws : w.SupU false) (hk : (KeysHP w)) :
+    ∀ (n m : Nat) (t : Ty) (x : Obj), sizeOf x ≤ n → sizeOf t ≤ m → (keysHP t) = true → t.supU false = true →
+      wellTyped w t x = true → (scalarKeys x) = true := by
   intro n
   induction n with
   | zero => intro m t x hx; have := sizeOf_obj_pos x; omega
@@ -91,17 +92,17 @@ theorem scalarKeys_of_typed_aux (hws : w.SupU false) (hk : w.KeysHP) :
     | zero => intro t x _ ht; have := sizeOf_ty_pos t; omega
     | succ m ihm =>
       intro t x hx ht hp hs hwt
-      have IHo : ∀ (t' : Ty) (x' : Obj), sizeOf x' < sizeOf x → t'.keysHP = true → t'.supU false = true →
-          wellTyped w t' x' = true → x'.scalarKeys = true :=
+      have IHo : ∀ (t' : Ty) (x' : Obj), sizeOf x' < sizeOf x → (keysHP t') = true → t'.supU false = true →
+          wellTyped w t' x' = true → (scalarKeys x') = true :=
         fun t' x' h => ihn (sizeOf t') t' x' (by omega) (Nat.le_refl _)
       cases t with
-      | any => simp [Ty.keysHP] at hp
-      | int => cases x <;> simp_all [wellTyped, Obj.scalarKeys]
-      | float => cases x <;> simp_all [wellTyped, Obj.scalarKeys]
-      | str => cases x <;> simp_all [wellTyped, Obj.scalarKeys]
-      | bytes => cases x <;> simp_all [wellTyped, Obj.scalarKeys]
-      | bool => cases x <;> simp_all [wellTyped, Obj.scalarKeys]
-      | enum e => cases x <;> simp_all [wellTyped, Obj.scalarKeys]
+      | any => simp [keysHP] at hp
+      | int => cases x <;> simp_all [wellTyped, scalarKeys]
+      | float => cases x <;> simp_all [wellTyped, scalarKeys]
+      | str => cases x <;> simp_all [wellTyped, scalarKeys]
+      | bytes => cases x <;> simp_all [wellTyped, scalarKeys]
+      | bool => cases x <;> simp_all [wellTyped, scalarKeys]
+      | enum e => cases x <;> simp_all [wellTyped, scalarKeys]
       | lit vs =>
         exact leaf_scalarKeys (memPy_leaf (by simpa [Ty.supU] using hs) (by simpa [wellTyped] using hwt))
       | coll k t' =>
@@ -111,8 +112,8 @@ theorem scalarKeys_of_typed_aux (hws : w.SupU false) (hk : w.KeysHP) :
           obtain ⟨hck, hwl⟩ := hwt
           have hel := (wellTypedL_iff w t' xs).mp hwl
           have hs' : t'.supU false = true := by simpa [Ty.supU] using hs
-          simp only [Ty.keysHP, Bool.and_eq_true, Bool.or_eq_true, Bool.not_eq_true'] at hp
-          simp only [Obj.scalarKeys, Bool.and_eq_true, Bool.or_eq_true, Bool.not_eq_true']
+          simp only [keysHP, Bool.and_eq_true, Bool.or_eq_true, Bool.not_eq_true'] at hp
+          simp only [scalarKeys, Bool.and_eq_true, Bool.or_eq_true, Bool.not_eq_true']
           refine ⟨?_, (scalarKeysL_iff xs).mpr (fun z hz => IHo t' z (by
             have := List.sizeOf_lt_of_mem hz; simp; omega) hp.2 hs' (hel z hz))⟩
           rcases hp.1 with h | h
@@ -125,8 +126,8 @@ theorem scalarKeys_of_typed_aux (hws : w.SupU false) (hk : w.KeysHP) :
         | coll ck xs =>
           cases ck <;> simp [wellTyped] at hwt
           simp only [Ty.supU, Bool.and_eq_true] at hs
-          rw [Ty.keysHP] at hp
-          simp only [Obj.scalarKeys, CK.isSet, Bool.not_false, Bool.true_or, Bool.true_and]
+          rw [keysHP] at hp
+          simp only [scalarKeys, CK.isSet, Bool.not_false, Bool.true_or, Bool.true_and]
           refine (scalarKeysL_iff xs).mpr (fun z hz => ?_)
           obtain ⟨t', ht', hh⟩ := wellTypedT_mem w ts xs hwt z hz
           exact IHo t' z (by have := List.sizeOf_lt_of_mem hz; simp; omega) (keysHPL_mem hp t' ht')
@@ -138,8 +139,8 @@ theorem scalarKeys_of_typed_aux (hws : w.SupU false) (hk : w.KeysHP) :
           rw [wellTyped] at hwt
           have hel := (wellTypedKV_iff w kt vt kvs).mp hwt
           simp only [Ty.supU, Bool.and_eq_true] at hs
-          simp only [Ty.keysHP, Bool.and_eq_true] at hp
-          rw [Obj.scalarKeys]
+          simp only [keysHP, Bool.and_eq_true] at hp
+          rw [scalarKeys]
           refine (scalarKeysKV_iff kvs).mpr (fun p hpm => ?_)
           have := sizeOf_lt_of_mem_kv hpm
           exact ⟨hashPrim_scalar w (sizeOf kt) kt p.1 (Nat.le_refl _) hp.1 hs.1 (hel p hpm).1,
@@ -150,25 +151,25 @@ theorem scalarKeys_of_typed_aux (hws : w.SupU false) (hk : w.KeysHP) :
         by_cases hx0 : x = .none
         · subst hx0; rfl
         · rw [wellTyped_opt_ne w hx0] at hwt
-          exact ihm t' x hx hsz (by simpa [Ty.keysHP] using hp) (by simpa [Ty.supU] using hs) hwt
+          exact ihm t' x hx hsz (by simpa [keysHP] using hp) (by simpa [Ty.supU] using hs) hwt
       | wrap k t' =>
         have hsz : sizeOf t' ≤ m := by simp at ht; omega
         rw [wellTyped] at hwt
         simp only [Ty.supU, Bool.and_eq_true] at hs
-        exact ihm t' x hx hsz (by simpa [Ty.keysHP] using hp) hs.1 hwt
+        exact ihm t' x hx hsz (by simpa [keysHP] using hp) hs.1 hwt
       | cls c =>
         cases x with
         | inst c' fs =>
           simp only [wellTyped, Bool.and_eq_true, beq_iff_eq] at hwt
           obtain ⟨hc, hwf⟩ := hwt
           subst hc
-          rw [Obj.scalarKeys]
+          rw [scalarKeys]
           have key : ∀ (fds : List Field) (gs : List (String × Obj)), (∀ f ∈ fds, f ∈ w.fields c) →
               (∀ p ∈ gs, sizeOf p.2 < sizeOf (Obj.inst c fs)) → wellTypedF w fds gs = true →
-              Obj.scalarKeysF gs = true := by
+              scalarKeysF gs = true := by
             intro fds
             induction fds with
-            | nil => intro gs _ _ h; cases gs <;> simp_all [wellTypedF, Obj.scalarKeysF]
+            | nil => intro gs _ _ h; cases gs <;> simp_all [wellTypedF, scalarKeysF]
             | cons f fds ih =>
               intro gs hsub hsz h
               cases gs with
@@ -179,7 +180,7 @@ theorem scalarKeys_of_typed_aux (hws : w.SupU false) (hk : w.KeysHP) :
                 simp only [Bool.and_eq_true] at h
                 obtain ⟨t', hty, hkp⟩ := hk c f (hsub f (by simp))
                 have hv : wellTyped w t' v = true := by simpa [wtField, hty] using h.1
-                simp only [Obj.scalarKeysF, Bool.and_eq_true]
+                simp only [scalarKeysF, Bool.and_eq_true]
                 exact ⟨IHo t' v (hsz (nm, v) (by simp)) hkp (hws.fieldsOK c f (hsub f (by simp)) t' hty) hv,
                   ih rest (fun g hg => hsub g (by simp [hg])) (fun p hp => hsz p (by simp [hp])) h.2⟩
           exact key (w.fields c) fs (fun f hf => hf) (fun p hp => by
@@ -187,8 +188,8 @@ theorem scalarKeys_of_typed_aux (hws : w.SupU false) (hk : w.KeysHP) :
         | _ => simp [wellTyped] at hwt
       | td c => simp [Ty.supU] at hs
 
-theorem scalarKeys_of_typed (hws : w.SupU false) (hk : w.KeysHP) {t : Ty} {x : Obj}
-    (hp : t.keysHP = true) (hs : t.supU false = true) (hwt : wellTyped w t x = true) : x.scalarKeys = true :=
+theorem scalarKeys_of_typed (hws : w.SupU false) (hk : (KeysHP w)) {t : Ty} {x : Obj}
+    (hp : (keysHP t) = true) (hs : t.supU false = true) (hwt : wellTyped w t x = true) : (scalarKeys x) = true :=
   scalarKeys_of_typed_aux w hws hk (sizeOf x) (sizeOf t) t x (Nat.le_refl _) (Nat.le_refl _) hp hs hwt
 
-end CattrsModel
+end CattrsModel.GenInterp
